@@ -153,6 +153,23 @@ func suiteC20(c *ctx) {
 			rep = append([]byte{byte(ann >> 8), byte(ann)}, body[:min(len(body), ann)]...)
 			opts = []string{"debug", "debug,not_set_pass", "stackpw,try_first_pass,debug", "-"}[r.Intn(4)]
 			script = fmt.Sprintf("R%d;W%x;C", rl, rep)
+		case k == 15:
+			// a signal interrupts the module while it waits for the reply (before any byte, or between
+			// header and body); afterwards the server answers, stays silent or closes
+			switch r.Intn(4) {
+			case 0:
+				script = fmt.Sprintf("R%d;S30;I;W%x;C", rl, rep)
+			case 1:
+				script = fmt.Sprintf("R%d;S30;I;C", rl)
+			case 2:
+				if len(rep) > 2 {
+					script = fmt.Sprintf("R%d;W%x;S30;I;W%x;C", rl, rep[:2], rep[2:])
+				} else {
+					script = fmt.Sprintf("R%d;S30;I;S30;I;C", rl)
+				}
+			default:
+				script = fmt.Sprintf("R%d;S30;I;X", rl)
+			}
 		case k == 13: // delay inside the timeout before the reply
 			script = fmt.Sprintf("R%d;S%d;W%x;C", rl, 100+r.Intn(300), rep)
 		default:
@@ -160,6 +177,15 @@ func suiteC20(c *ctx) {
 		}
 		if len(script) > 60000 {
 			continue
+		}
+		// the calling application's errno is a stale EINTR when it enters the module (an earlier,
+		// unrelated system call of the application was interrupted): nothing may depend on it
+		if r.Intn(5) == 0 {
+			if opts == "-" {
+				opts = "eintr"
+			} else {
+				opts += ",eintr"
+			}
 		}
 		extra := ""
 		if strings.HasPrefix(script, "R") {
